@@ -42,6 +42,10 @@ func vxSameTyps(a, b []types.Type) bool {
 // vxRegister plays the calls of one package through SetFuncName the way newPackage does (stop at the first error).
 func vxRegister(k int) { vxRegisterU(k, vxUniverse(), false) }
 
+// first >= 0 fixes the name of the first call: the K=4 harness is split into its four first names so that
+// each query stays within the budget and the four run in parallel.
+func vxRegister4(first int) { vxRegisterF(4, vxUniverse(), false, first) }
+
 // vxUniverseOneWay: distinct type lists of which one is assignable to another but not conversely
 // (chan int -> <-chan int). The property's quantifier is over pairwise non-assignable types; this universe
 // probes just outside it.
@@ -55,7 +59,9 @@ func vxUniverseOneWay() [][]types.Type {
 // carveF18: exclude the histories of known finding F18 (universe vxUniverseOneWay only): a call over the more
 // specific list {chan int, int} (index 0) after one over the more general {<-chan int, int} (index 1), and
 // the two lists under one name (a conflict that SetFuncName takes for the same function).
-func vxRegisterU(k int, uni [][]types.Type, carveF18 bool) {
+func vxRegisterU(k int, uni [][]types.Type, carveF18 bool) { vxRegisterF(k, uni, carveF18, -1) }
+
+func vxRegisterF(k int, uni [][]types.Type, carveF18 bool, first int) {
 	autoname := vx.Nondet[bool]("autoname")
 	dedup := vx.Nondet[bool]("dedup")
 	vxNames := vxNameList()
@@ -77,6 +83,9 @@ func vxRegisterU(k int, uni [][]types.Type, carveF18 bool) {
 		ni[i] = vx.Nondet[uint8]("name")
 		ti[i] = vx.Nondet[uint8]("typ")
 		vx.Assume(ni[i] < 4 && ti[i] < 4)
+		if i == 0 && first >= 0 {
+			vx.Assume(ni[0] == uint8(first))
+		}
 		vx.Assume(!isRes[ni[i]]) // a derive call is undefined, hence not a defined (reserved) name
 		for j := 0; j < i; j++ {
 			if carveF18 {
@@ -137,9 +146,12 @@ func vxRegisterU(k int, uni [][]types.Type, carveF18 bool) {
 	}
 }
 
-func VX_C11_register_K2() { vxRegister(2) }
-func VX_C11_register_K3() { vxRegister(3) }
-func VX_C11_register_K4() { vxRegister(4) }
+func VX_C11_register_K2()    { vxRegister(2) }
+func VX_C11_register_K3()    { vxRegister(3) }
+func VX_C11_register_K4_n0() { vxRegister4(0) }
+func VX_C11_register_K4_n1() { vxRegister4(1) }
+func VX_C11_register_K4_n2() { vxRegister4(2) }
+func VX_C11_register_K4_n3() { vxRegister4(3) }
 
 // One-way assignable argument types (chan int -> <-chan int): just outside the property's quantifier
 // ("pairwise non-assignable"), inside its statement. The general-before-specific order is known finding F18.
